@@ -217,8 +217,8 @@ package pool
 //@   ensures slot: sp.currentSlot == slot
 //@   ensures same: old(sp.currentSlot) == slot ==> unchanged(sp.prevMsgs) && unchanged(sp.currentMsgs) && unchanged(sp.nextMsgs) && unchanged(sp.prevContribs) && unchanged(sp.currentContribs) && unchanged(sp.nextContribs)
 //@   ensures forward: (old(sp.currentSlot) + 1) % 18446744073709551616 == slot && old(sp.currentSlot) != (slot + 1) % 18446744073709551616 ==> sp.prevMsgs == old(sp.currentMsgs) && sp.currentMsgs == old(sp.nextMsgs) && len(sp.nextMsgs) == 0 && !isnil(sp.nextMsgs) && sp.prevContribs == old(sp.currentContribs) && sp.currentContribs == old(sp.nextContribs) && len(sp.nextContribs) == 0 && !isnil(sp.nextContribs)
-//@   ensures backward: old(sp.currentSlot) == (slot + 1) % 18446744073709551616 ==> sp.nextMsgs == old(sp.currentMsgs) && sp.currentMsgs == old(sp.prevMsgs) && len(sp.prevMsgs) == 0 && !isnil(sp.prevMsgs)
-//@   ensures cleared: old(sp.currentSlot) != slot && (old(sp.currentSlot) + 1) % 18446744073709551616 != slot && old(sp.currentSlot) != (slot + 1) % 18446744073709551616 ==> len(sp.prevMsgs) == 0 && len(sp.currentMsgs) == 0 && len(sp.nextMsgs) == 0 && !isnil(sp.prevMsgs) && !isnil(sp.currentMsgs) && !isnil(sp.nextMsgs) && !isnil(sp.prevContribs) && !isnil(sp.currentContribs) && !isnil(sp.nextContribs)
+//@   ensures backward: old(sp.currentSlot) == (slot + 1) % 18446744073709551616 ==> sp.nextMsgs == old(sp.currentMsgs) && sp.currentMsgs == old(sp.prevMsgs) && len(sp.prevMsgs) == 0 && !isnil(sp.prevMsgs) && sp.nextContribs == old(sp.currentContribs) && sp.currentContribs == old(sp.prevContribs) && len(sp.prevContribs) == 0 && !isnil(sp.prevContribs)
+//@   ensures cleared: old(sp.currentSlot) != slot && (old(sp.currentSlot) + 1) % 18446744073709551616 != slot && old(sp.currentSlot) != (slot + 1) % 18446744073709551616 ==> len(sp.prevMsgs) == 0 && len(sp.currentMsgs) == 0 && len(sp.nextMsgs) == 0 && !isnil(sp.prevMsgs) && !isnil(sp.currentMsgs) && !isnil(sp.nextMsgs) && !isnil(sp.prevContribs) && !isnil(sp.currentContribs) && !isnil(sp.nextContribs) && len(sp.prevContribs) == 0 && len(sp.currentContribs) == 0 && len(sp.nextContribs) == 0
 
 //@ func (msgs SyncCommitteeMessages) Select(root, members) out
 //@   property C20
